@@ -18,7 +18,7 @@ def parse_logs(paths):
         if not os.path.exists(p):
             continue
         for line in open(p):
-            m = re.match(r"=== (C\d+b?) (m\d+) (verify|detect)", line)
+            m = re.match(r"=== (C\d+[a-z]?) (m\d+) (verify|detect)", line)
             if m:
                 cur = (m.group(1), m.group(2))
                 res.setdefault(cur, {"verify": None, "detect": {}})
@@ -31,8 +31,23 @@ def parse_logs(paths):
     return res
 
 
+def parse_demos(path):
+    """lines '<id> <m> with=<rc> without=<rc>' written by my own re-run of every demonstration"""
+    out = {}
+    if os.path.exists(path):
+        for line in open(path):
+            m = re.match(r"(C\d+[a-z]?) (m\d+) with=(\d+) without=(\d+)", line)
+            if m:
+                out[(m.group(1), m.group(2))] = (int(m.group(3)), int(m.group(4)))
+    return out
+
+
 def main():
-    logs = sorted(x for x in sys.argv[1:])
+    logs = sorted(x for x in sys.argv[1:] if not x.startswith("--demos="))
+    demos = {}
+    for x in sys.argv[1:]:
+        if x.startswith("--demos="):
+            demos.update(parse_demos(x[len("--demos="):]))
     res = parse_logs(logs)
     os.makedirs(DST, exist_ok=True)
     rows = []
@@ -56,7 +71,8 @@ def main():
         meta = {"property": pid, "mutant": m, "breaks": pid,
                 "needs_to_manifest": needs or "see README.md",
                 "confirmed": {"applied in scratch worktree /tmp/wt/%s" % pid: r["verify"],
-                              "demo": "run by the authoring sub-agent (fails with the change, passes without); see README.md"},
+                              "demo": ("re-run by me in the scratch worktree: exit status %d with the change, %d without" % demos[(pid, m)])
+                              if (pid, m) in demos else "run by the authoring sub-agent (fails with the change, passes without); see README.md"},
                 "checks_run": r["detect"],
                 "detected_by": detected,
                 "what_i_ran": "python3 harness/seedtest.py verify /tmp/wt/%s <seed> ; python3 harness/seedtest.py detect <seed> %s  (git -C /repo apply patch.diff; quick checks; git -C /repo checkout -- .)" % (pid, ",".join(r["detect"]))}
